@@ -27,8 +27,8 @@ from typing import Any, Callable, Dict, Iterable, List, Optional, Sequence, Tupl
 from . import lean
 
 VERIF = Path(__file__).resolve().parents[2]
-EVIDENCE = VERIF / "evidence"
-REPLAY = VERIF / "replay"
+EVIDENCE = Path(os.environ.get("VERIF_EVIDENCE_DIR", VERIF / "evidence"))
+REPLAY = Path(os.environ.get("VERIF_REPLAY_DIR", VERIF / "replay"))
 CORPUS = VERIF / "corpus"
 KNOWN = VERIF / "known_findings.json"
 
@@ -244,7 +244,7 @@ def run_oracles(run: Run, oracles: Sequence[Oracle], extra_cases: Optional[Dict[
 
 
 def write_replay(run: Run, name: str, payload: dict) -> Path:
-    REPLAY.mkdir(exist_ok=True)
+    REPLAY.mkdir(parents=True, exist_ok=True)
     p = REPLAY / f"{run.prop}_{name}.json"
     p.write_text(json.dumps(jsonable(payload), indent=1))
     return p
@@ -325,7 +325,7 @@ def finish(run: Run, mod, level: str = "proof") -> int:
         "assumptions": list(getattr(mod, "ASSUMPTIONS", [])),
         "wall_s": round(wall, 2), "violations": unlisted,
     }
-    EVIDENCE.mkdir(exist_ok=True)
+    EVIDENCE.mkdir(parents=True, exist_ok=True)
     (EVIDENCE / f"{run.prop}.json").write_text(json.dumps(jsonable(ev), indent=1))
     print(f"[{run.prop}] tier={run.tier} seed={run.seed} obligations={cov['obligations']} discharged={cov['discharged']} "
           f"corr_cases={cov['traces_validated_against_impl']} disagreements={len(run.disagreements)} "
